@@ -211,6 +211,160 @@ type convObj struct {
 type srcSpec struct {
 	err  bool
 	data dataSpec
+	tree *srcNode // the source as built (nil: a *datasources.StaticData over data)
+	why  string   // the kind of failure
+}
+
+// srcNode: a data source as the flow names it (Model/BootSimSrc.v).  What the source hands to the
+// measurement (srcSpec.err / srcSpec.data) is computed by specOf from the documentation of the
+// constructors, independently of the model; the model resolves the tree itself.
+type srcNode struct {
+	kind   string // static bytes mem concat reported
+	data   dataSpec
+	err    bool // reported: the source returned an error
+	b      []byte
+	nilB   bool
+	ranges [][2]uint64
+	kids   []*srcNode
+	ds     types.DataSource // reported: the real source
+}
+
+func rangesLit(rs [][2]uint64) string {
+	var out []string
+	for _, x := range rs {
+		out = append(out, gal.Pair(gal.U(x[0]), gal.U(x[1])))
+	}
+	return gal.List(out)
+}
+
+func (n *srcNode) lit() string {
+	switch n.kind {
+	case "static":
+		return "(SStatic " + dataLit(n.data) + ")"
+	case "bytes":
+		if n.nilB {
+			return "(SBytes None)"
+		}
+		return "(SBytes (Some " + bl(n.b) + "))"
+	case "mem":
+		return "(SMemRanges " + rangesLit(n.ranges) + ")"
+	case "concat":
+		var ks []string
+		for _, k := range n.kids {
+			ks = append(ks, k.lit())
+		}
+		return "(SConcat " + gal.List(ks) + ")"
+	}
+	if n.err {
+		return "(SReported DSErr)"
+	}
+	return "(SReported (DS " + dataLit(n.data) + "))"
+}
+
+func (n *srcNode) descr() interface{} {
+	switch n.kind {
+	case "static":
+		return map[string]interface{}{"StaticData": dataDescr(n.data)}
+	case "bytes":
+		if n.nilB {
+			return "Bytes(nil)"
+		}
+		return map[string]interface{}{"Bytes": hx(n.b)}
+	case "mem":
+		return map[string]interface{}{"MemRanges": n.ranges}
+	case "concat":
+		var ks []interface{}
+		for _, k := range n.kids {
+			ks = append(ks, k.descr())
+		}
+		return map[string]interface{}{"Concat": ks}
+	}
+	if n.err {
+		return fmt.Sprintf("%T (returned an error)", n.ds)
+	}
+	return map[string]interface{}{fmt.Sprintf("%T reported", n.ds): dataDescr(n.data)}
+}
+
+// real builds the source from the public constructors
+func (n *srcNode) real() types.DataSource {
+	switch n.kind {
+	case "static":
+		return staticData(n.data)
+	case "bytes":
+		if n.nilB {
+			return datasources.Bytes(nil)
+		}
+		return datasources.Bytes(n.b)
+	case "mem":
+		var mr datasources.MemRanges
+		for _, x := range n.ranges {
+			mr = append(mr, pkgbytes.Range{Offset: x[0], Length: x[1]})
+		}
+		return mr
+	case "concat":
+		c := datasources.Concat{}
+		for _, k := range n.kids {
+			c = append(c, k.real())
+		}
+		return c
+	}
+	return n.ds
+}
+
+// specOf: what the source hands to the measurement -- StaticData: its data; Bytes(b): one reference to the
+// byte string itself (none for a nil slice); MemRanges: one reference into the BIOS image of the State
+// under the physical-memory mapper (an error without an image); Concat: the references of the
+// sub-sources in order, refusing a sub-source that fails, that carries a converter, or whose
+// references hold a non-empty byte-string artifact ("forced bytes").  why: the kind of failure.
+func (p *platform) specOf(n *srcNode) (sp srcSpec, why string) {
+	switch n.kind {
+	case "static":
+		return srcSpec{data: n.data}, ""
+	case "bytes":
+		if n.nilB {
+			return srcSpec{}, ""
+		}
+		a := &artifact{kind: 0, content: n.b, real: types.RawBytes(n.b)}
+		return srcSpec{data: dataSpec{refs: []refSpec{{art: a, ranges: [][2]uint64{{0, uint64(len(n.b))}}}}}}, ""
+	case "mem":
+		if p.noImage {
+			return srcSpec{err: true}, "MemRanges without a BIOS image in the State"
+		}
+		return srcSpec{data: dataSpec{refs: []refSpec{{art: p.img, phys: true, ranges: n.ranges}}}}, ""
+	case "concat":
+		var all []refSpec
+		for _, k := range n.kids {
+			ks, w := p.specOf(k)
+			if ks.err {
+				return srcSpec{err: true}, "Concat: sub-source failed (" + w + ")"
+			}
+			for _, r := range ks.data.refs {
+				if r.art.kind == 0 && len(r.art.content) > 0 {
+					return srcSpec{err: true}, "Concat: sub-source with forced bytes"
+				}
+			}
+			if ks.data.conv != 0 {
+				return srcSpec{err: true}, "Concat: sub-source with a converter"
+			}
+			all = append(all, ks.data.refs...)
+		}
+		return srcSpec{data: dataSpec{refs: all}}, ""
+	}
+	if n.err {
+		return srcSpec{err: true}, "third-party lookup failed"
+	}
+	return srcSpec{data: n.data}, ""
+}
+
+// countTree: the kinds of sources generated (input distribution)
+func countTree(n *srcNode, depth int) {
+	ctx.Count(fmt.Sprintf("source kind: %s (depth %d)", n.kind, depth))
+	if n.kind == "concat" {
+		ctx.Count(fmt.Sprintf("Concat of %d sub-sources", len(n.kids)))
+	}
+	for _, k := range n.kids {
+		countTree(k, depth+1)
+	}
 }
 
 // msg is a byte string together with a Gallina expression denoting it
@@ -323,10 +477,13 @@ func dataLit(d dataSpec) string {
 }
 
 func srcLit(s srcSpec) string {
-	if s.err {
-		return "DSErr"
+	if s.tree != nil {
+		return s.tree.lit()
 	}
-	return "(DS " + dataLit(s.data) + ")"
+	if s.err {
+		return "(SReported DSErr)"
+	}
+	return "(SStatic " + dataLit(s.data) + ")"
 }
 
 func realRef(r refSpec) types.Reference {
@@ -426,17 +583,17 @@ type itemSpec struct {
 func (it *itemSpec) lit() string {
 	switch it.kind {
 	case "init":
-		return fmt.Sprintf("(IInit %d)", it.l)
+		return fmt.Sprintf("(SI (IInit %d))", it.l)
 	case "inittpm":
-		return fmt.Sprintf("(IInitTPM %d %s)", it.l, gal.Bool(it.withLog))
+		return fmt.Sprintf("(SI (IInitTPM %d %s))", it.l, gal.Bool(it.withLog))
 	case "loginit":
-		return fmt.Sprintf("(ILogInit %d)", it.l)
+		return fmt.Sprintf("(SI (ILogInit %d))", it.l)
 	case "event":
-		return fmt.Sprintf("(IEvent %d %s %d %s)", it.p, srcLit(it.src), it.ty, optBytes(it.evd))
+		return fmt.Sprintf("(SEv %d %s %d %s)", it.p, srcLit(it.src), it.ty, optBytes(it.evd))
 	case "extend":
-		return fmt.Sprintf("(IExtend %d %s %d)", it.p, srcLit(it.src), it.alg)
+		return fmt.Sprintf("(SEx %d %s %d)", it.p, srcLit(it.src), it.alg)
 	case "logadd":
-		return fmt.Sprintf("(ILogAdd %d %d %s %d %s)", it.p, it.alg, bl(it.digest), it.ty, optBytes(it.evd))
+		return fmt.Sprintf("(SI (ILogAdd %d %d %s %d %s))", it.p, it.alg, bl(it.digest), it.ty, optBytes(it.evd))
 	case "pcr0":
 		o := func(d *dataSpec) string {
 			if d == nil {
@@ -444,9 +601,9 @@ func (it *itemSpec) lit() string {
 			}
 			return "(Some " + refsLit(d.refs) + ")"
 		}
-		return fmt.Sprintf("(IPCR0Data %s %s)", o(it.pcr0[0]), o(it.pcr0[1]))
+		return fmt.Sprintf("(SI (IPCR0Data %s %s))", o(it.pcr0[0]), o(it.pcr0[1]))
 	}
-	return "IPanic"
+	return "(SI IPanic)"
 }
 
 func hx(b []byte) interface{} {
@@ -501,6 +658,12 @@ func (it *itemSpec) descr() interface{} {
 		} else {
 			m["source"] = dataDescr(it.src.data)
 		}
+		if it.src.tree != nil {
+			m["source_constructors"] = it.src.tree.descr()
+			if it.src.why != "" {
+				m["source"] = "error: " + it.src.why
+			}
+		}
 	}
 	return m
 }
@@ -509,6 +672,7 @@ func (it *itemSpec) descr() interface{} {
 
 type platform struct {
 	img     *artifact
+	noImage bool // the State has no BIOS image (references may still point into the image object)
 	hasRegs bool
 	reg     uint64
 	txt     *artifact
@@ -588,7 +752,9 @@ func (p *platform) recycle(how string, last interface{}) {
 	}
 	s.IncludeSubSystem(p.tpm)
 	s.IncludeSubSystem(intelpch.NewPCH())
-	s.IncludeSystemArtifact(p.img.real)
+	if !p.noImage {
+		s.IncludeSystemArtifact(p.img.real)
+	}
 	if p.hasRegs {
 		s.IncludeSystemArtifact(p.txt.real)
 	}
@@ -598,7 +764,11 @@ func (p *platform) recycle(how string, last interface{}) {
 var img4kBytes []byte
 
 func newPlatform(useFW bool, hasRegs bool, reg uint64) *platform {
-	p := &platform{hasRegs: hasRegs, reg: reg}
+	return newPlatformImg(useFW, hasRegs, reg, false)
+}
+
+func newPlatformImg(useFW bool, hasRegs bool, reg uint64, noImage bool) *platform {
+	p := &platform{hasRegs: hasRegs, reg: reg, noImage: noImage}
 	if useFW {
 		p.img = &artifact{kind: 1, coq: "fw", content: firmware.FakeIntelFirmware}
 	} else {
@@ -610,7 +780,9 @@ func newPlatform(useFW bool, hasRegs bool, reg uint64) *platform {
 	s := types.NewState()
 	s.IncludeSubSystem(p.tpm)
 	s.IncludeSubSystem(intelpch.NewPCH())
-	s.IncludeSystemArtifact(p.img.real)
+	if !noImage {
+		s.IncludeSystemArtifact(p.img.real)
+	}
 	if hasRegs {
 		tp := txtpublic.New(registers.Registers{registers.ParseACMPolicyStatusRegister(reg)})
 		p.txt = &artifact{kind: 2, real: tp}
@@ -750,6 +922,12 @@ func (p *platform) genRef(allowBad bool) refSpec {
 		for i := 0; i < n; i++ {
 			o := ctx.Rng.Intn(len(b))
 			l := ctx.Rng.Intn(len(b) - o + 1)
+			switch ctx.Rng.Intn(10) {
+			case 0: // the last byte; nothing at the very end (ReadAt answers EOF from there on)
+				o, l = len(b)-1, 1
+			case 1:
+				o, l = len(b), 0
+			}
 			r.ranges = append(r.ranges, [2]uint64{uint64(o), uint64(l)})
 		}
 		if allowBad && ctx.Rng.Intn(12) == 0 {
@@ -815,80 +993,89 @@ func (p *platform) genData(allowBad bool) dataSpec {
 
 var dxeGUIDs = []guid.GUID{ffsConsts.GUIDDXEContainer, ffsConsts.GUIDDXE}
 
-// genSource picks a data source built from the public constructors and the spec describing it
-func (p *platform) genSource(allowBad bool) (srcSpec, types.DataSource) {
-	switch ctx.Rng.Intn(20) {
+// genTree: a source built from the public constructors.  depth bounds the nesting of Concat.
+func (p *platform) genTree(allowBad bool, depth int) *srcNode {
+	k := ctx.Rng.Intn(20)
+	if depth > 0 && k >= 8 && k <= 9 && ctx.Rng.Intn(3) > 0 {
+		k = 10 + ctx.Rng.Intn(10) // nested Concat is rarer
+	}
+	switch k {
 	case 0: // a source that returns an error
 		g := guid.GUID{}
 		copy(g[:], rbytes(16))
-		return srcSpec{err: true}, datasources.UEFIGUIDFirst{g}
+		return &srcNode{kind: "reported", err: true, ds: datasources.UEFIGUIDFirst{g}}
 	case 1: // GUID-selected volume (the references are what the source reports)
-		if p.img.coq == "fw" {
+		if p.img.coq == "fw" && !p.noImage {
 			ds := datasources.UEFIGUIDFirst(dxeGUIDs)
 			d, err := ds.Data(bg, p.state)
 			if err == nil {
 				if spec, ok := p.toDataSpec(d); ok {
-					return srcSpec{data: spec}, ds
+					return &srcNode{kind: "reported", data: spec, ds: ds}
 				}
 			}
-			return srcSpec{err: true}, ds
+			return &srcNode{kind: "reported", err: true, ds: ds}
 		}
 	case 2, 3, 4: // datasources.Bytes
 		b := rbytes(genLen())
 		if ctx.Rng.Intn(8) == 0 {
 			b = []byte{0, 0, 0, 0} // the separator
 		}
-		if ctx.Rng.Intn(15) == 0 {
-			return srcSpec{}, datasources.Bytes(nil)
+		if depth > 0 && ctx.Rng.Intn(2) == 0 {
+			b = []byte{} // inside a Concat only an EMPTY byte string is not "forced bytes"
 		}
-		a := &artifact{kind: 0, content: b, real: types.RawBytes(b)}
-		return srcSpec{data: dataSpec{refs: []refSpec{{art: a, ranges: [][2]uint64{{0, uint64(len(b))}}}}}}, datasources.Bytes(b)
+		if ctx.Rng.Intn(15) == 0 {
+			return &srcNode{kind: "bytes", nilB: true}
+		}
+		return &srcNode{kind: "bytes", b: b}
 	case 5, 6, 7: // datasources.MemRanges
 		r := p.genRef(allowBad)
 		for r.art.kind != 1 || !r.phys {
 			r = p.genRef(allowBad)
 		}
-		var mr datasources.MemRanges
-		for _, x := range r.ranges {
-			mr = append(mr, pkgbytes.Range{Offset: x[0], Length: x[1]})
-		}
-		return srcSpec{data: dataSpec{refs: []refSpec{r}}}, mr
-	case 8, 9: // datasources.Concat of two sources
+		return &srcNode{kind: "mem", ranges: r.ranges}
+	case 8, 9: // datasources.Concat
 		// Concat refuses sub-sources with a converter or with "forced bytes" (a non-empty
 		// types.RawBytes artifact among the references): mostly image-only parts, sometimes not
 		imageOnly := ctx.Rng.Intn(4) > 0
-		part := func() dataSpec {
-			d := p.genData(allowBad)
-			d.conv, d.obj = 0, nil
-			if imageOnly {
-				for i := range d.refs {
-					for d.refs[i].art.kind != 1 {
-						d.refs[i] = p.genRef(allowBad)
+		n := pick(0, 1, 2, 2, 2, 3, 3, 4)
+		c := &srcNode{kind: "concat"}
+		for i := 0; i < n; i++ {
+			var kid *srcNode
+			switch ctx.Rng.Intn(6) {
+			case 0, 1, 2: // static data without a converter
+				d := p.genData(allowBad)
+				d.conv, d.obj = 0, nil
+				if imageOnly {
+					for i := range d.refs {
+						for d.refs[i].art.kind != 1 {
+							d.refs[i] = p.genRef(allowBad)
+						}
 					}
 				}
+				if ctx.Rng.Intn(12) == 0 { // a part with a converter: refused
+					d.conv = pick[uint16](algSHA1, algSHA256)
+					d.obj = p.conv(d.conv)
+				}
+				kid = &srcNode{kind: "static", data: d}
+			default:
+				kid = p.genTree(allowBad, depth+1)
+				if imageOnly && kid.kind == "bytes" && !kid.nilB && len(kid.b) > 0 {
+					kid.b = []byte{}
+				}
 			}
-			return d
+			c.kids = append(c.kids, kid)
 		}
-		d1, d2 := part(), part()
-		if ctx.Rng.Intn(10) == 0 { // a part with a converter: refused
-			d2.conv = pick[uint16](algSHA1, algSHA256)
-			d2.obj = p.conv(d2.conv)
-		}
-		mk := staticData
-		all := append(append([]refSpec{}, d1.refs...), d2.refs...)
-		ds := datasources.Concat{mk(d1), mk(d2)}
-		if d2.conv != 0 {
-			return srcSpec{err: true}, ds
-		}
-		for _, r := range all {
-			if r.art.kind == 0 && len(r.art.content) > 0 {
-				return srcSpec{err: true}, ds
-			}
-		}
-		return srcSpec{data: dataSpec{refs: all}}, ds
+		return c
 	}
-	d := p.genData(allowBad)
-	return srcSpec{data: d}, staticData(d)
+	return &srcNode{kind: "static", data: p.genData(allowBad)}
+}
+
+// genSource picks a data source built from the public constructors and the spec describing it
+func (p *platform) genSource(allowBad bool) (srcSpec, types.DataSource) {
+	t := p.genTree(allowBad, 0)
+	sp, why := p.specOf(t)
+	sp.tree, sp.why = t, why
+	return sp, t.real()
 }
 
 func genType(allowNoAction bool) uint32 {
@@ -900,6 +1087,27 @@ func genType(allowNoAction bool) uint32 {
 		t = 1
 	}
 	return t
+}
+
+// nearStartupData: event data around every comparison tpmeventlog.ParseLocality makes ("StartupLocality",
+// a NUL, exactly one locality byte)
+func nearStartupData() []byte {
+	l := genLocality()
+	switch ctx.Rng.Intn(8) {
+	case 0:
+		return []byte("StartupLocality\x00") // no locality byte
+	case 1:
+		return append([]byte("StartupLocality\x00"), l, 0) // two bytes
+	case 2:
+		return []byte("StartupLocality") // no NUL
+	case 3:
+		return append([]byte("StartupLocalitY\x00"), l) // another word
+	case 4:
+		return append([]byte("StartupLocality\x00\x00"), l) // the locality byte itself preceded by a NUL
+	case 5:
+		return append([]byte("\x00StartupLocality\x00"), l)
+	}
+	return append([]byte("StartupLocality\x00"), l) // well-formed
 }
 
 func genEvd() []byte {
@@ -1072,7 +1280,12 @@ func (p *platform) genLogged() []*itemSpec {
 			return &itemSpec{kind: "loginit", l: genLocality()}
 		case 2:
 			alg := pick[uint16](algSHA1, algSHA256)
-			return &itemSpec{kind: "logadd", p: pick[uint8](0, 0, 1), alg: alg, digest: rbytes(hsize(alg)), ty: evNoAct, evd: genEvd()}
+			it := &itemSpec{kind: "logadd", p: pick[uint8](0, 0, 1), alg: alg, digest: rbytes(hsize(alg)), ty: evNoAct, evd: genEvd()}
+			if ctx.Rng.Intn(2) == 0 {
+				it.evd = nearStartupData()
+				ctx.Count("bare EV_NO_ACTION entry with (nearly) startup-locality data")
+			}
+			return it
 		case 3:
 			return &itemSpec{kind: "inittpm", l: pick(l, genLocality()), withLog: true} // refused, but logs again
 		}
@@ -1132,22 +1345,37 @@ func (p *platform) genGeneral() []*itemSpec {
 		case 3:
 			items = append(items, &itemSpec{kind: "loginit", l: genLocality()})
 		case 4, 5: // bare TPMExtend
-			it := &itemSpec{kind: "extend", p: pick[uint8](0, 0, 1, 2), alg: pick[uint16](algSHA1, algSHA256, algSHA256, 12, 0, 5)}
+			// the bank: SHA1 / SHA256, and the neighbours of every comparison the TPM makes (10 and 12 around
+			// tpmMaxHashAlgo = 11: 12 and 13 are hashes without a bank, 0 / 5 / 10 no hashes; 65535 the largest ID)
+			it := &itemSpec{kind: "extend", p: pick[uint8](0, 0, 1, 2), alg: pick[uint16](algSHA1, algSHA256, algSHA256, algSHA1, algSHA256, 12, 0, 5, 10, 13, 65535)}
+			if ctx.Rng.Intn(12) == 0 {
+				it.p = pick[uint8](2, 3, 255)
+			}
 			it.src, it.ds = p.genSource(true)
 			if !it.src.err && ctx.Rng.Intn(2) == 0 { // TPM2_PCR_Extend of a digest computed by the caller
 				it.src.data.conv = pick[uint16](algSHA1, algSHA256)
 				it.src.data.obj = p.conv(it.src.data.conv)
+				it.src.tree = &srcNode{kind: "static", data: it.src.data}
 				it.ds = staticData(it.src.data)
 			}
 			items = append(items, it)
 		case 6, 7: // bare TPMEventLogAdd
 			alg := pick[uint16](algSHA1, algSHA256, 12)
 			dl := hsize(alg)
-			if ctx.Rng.Intn(6) == 0 {
+			switch ctx.Rng.Intn(9) {
+			case 0:
 				dl = ctx.Rng.Intn(40)
+			case 1: // around the length FilterEvents compares with
+				if dl > 0 {
+					dl = pick(dl-1, dl+1, 0)
+				}
 			}
-			items = append(items, &itemSpec{kind: "logadd", p: pick[uint8](0, 0, 1, 3), alg: alg, digest: rbytes(dl),
-				ty: genType(true), evd: genEvd()})
+			it := &itemSpec{kind: "logadd", p: pick[uint8](0, 0, 1, 3), alg: alg, digest: rbytes(dl), ty: genType(true), evd: genEvd()}
+			if ctx.Rng.Intn(5) == 0 { // an informational entry that is, or nearly is, a startup-locality entry
+				it.ty, it.evd, it.p = evNoAct, nearStartupData(), pick[uint8](0, 0, 0, 1)
+				ctx.Count("bare EV_NO_ACTION entry with (nearly) startup-locality data")
+			}
+			items = append(items, it)
 		case 8:
 			if p.img.coq == "fw" {
 				items = append(items, &itemSpec{kind: "pcr0"})
@@ -1655,6 +1883,8 @@ type runResult struct {
 	flags   [][]bool
 	proc    *bootengine.BootProcess
 	bad     string // the executed steps/actions cannot be matched with the intended items
+	logIdx  []int  // per entry of steps: its index in proc.Log
+	flow    string // generated flows: the name of the flow (its steps are the executed steps)
 }
 
 // stepFlags: for the actions bound to items, whether an issue was recorded at their index
@@ -1693,7 +1923,8 @@ func runGenerated(kind string, p *platform, items []*itemSpec) *runResult {
 	steps := group(items)
 	r := &runResult{kind: kind, plat: p, steps: steps, reuse: p.reuse, earlier: append([]interface{}{}, p.earlier...)}
 	ctx.Begin("running a boot flow built from the public constructors", "pkg/bootflow/bootengine: BootProcess.Finish", r.descr())
-	p.state.SetFlow(types.NewFlow("c01-"+kind, realize(steps)))
+	r.flow = "c01-" + kind
+	p.state.SetFlow(types.NewFlow(r.flow, realize(steps)))
 	proc := bootengine.NewBootProcess(p.state)
 	proc.Finish(bg)
 	r.proc = proc
@@ -1712,6 +1943,7 @@ func runGenerated(kind string, p *platform, items []*itemSpec) *runResult {
 			return r
 		}
 		r.flags = append(r.flags, stepFlags(proc.Log[i], st))
+		r.logIdx = append(r.logIdx, i)
 	}
 	return r
 }
@@ -1724,7 +1956,7 @@ func runBuiltin(kind string, p *platform, flow types.Flow) *runResult {
 	proc := bootengine.NewBootProcess(p.state)
 	proc.Finish(bg)
 	r := &runResult{kind: kind, plat: p, proc: proc, reuse: p.reuse, earlier: append([]interface{}{}, p.earlier...)}
-	for _, sr := range proc.Log {
+	for k, sr := range proc.Log {
 		st, ok := p.derive(sr)
 		if !ok {
 			return nil
@@ -1734,6 +1966,7 @@ func runBuiltin(kind string, p *platform, flow types.Flow) *runResult {
 		}
 		r.steps = append(r.steps, st)
 		r.flags = append(r.flags, stepFlags(sr, st))
+		r.logIdx = append(r.logIdx, k)
 	}
 	return r
 }
@@ -1776,6 +2009,112 @@ func cmdLit(c tpm.Command) string {
 	panic(fmt.Sprintf("unknown command %T", c))
 }
 
+func bucket(n int, bounds ...int) string {
+	lo := 0
+	for _, b := range bounds {
+		if n < b {
+			if b-1 == lo {
+				return fmt.Sprint(lo)
+			}
+			return fmt.Sprintf("%d..%d", lo, b-1)
+		}
+		lo = b
+	}
+	return fmt.Sprintf(">=%d", lo)
+}
+
+// countFlow: the input distribution (evidence): operations, sizes, localities, PCRs, banks, sources
+func countFlow(r *runResult) {
+	p := r.plat
+	ctx.Count("steps per flow: " + bucket(len(r.steps), 1, 2, 4, 8, 16))
+	if p.noImage {
+		ctx.Count("State without a BIOS image")
+	}
+	for _, st := range r.steps {
+		ctx.Count("items per step: " + bucket(len(st), 1, 2, 3, 4))
+		for _, it := range st {
+			ctx.Count("item: " + it.kind)
+			switch it.kind {
+			case "init", "inittpm", "loginit":
+				l := "1..127"
+				switch {
+				case it.l == 0:
+					l = "0"
+				case it.l == 255:
+					l = "255"
+				case it.l >= 128:
+					l = "128..254"
+				}
+				ctx.Count("locality: " + l)
+			case "event", "extend", "logadd":
+				ctx.Count("PCR index: " + bucket(int(it.p), 1, 2, 3, 255, 256))
+				if it.kind != "event" {
+					ctx.Count(fmt.Sprintf("bank of a bare extend / log entry: %d", it.alg))
+				}
+				if it.kind != "extend" {
+					ty := "other"
+					if it.ty == evNoAct {
+						ty = "EV_NO_ACTION"
+					}
+					ctx.Count(it.kind + " event type: " + ty)
+					switch {
+					case it.evd == nil:
+						ctx.Count("event data: nil")
+					case len(it.evd) == 0:
+						ctx.Count("event data: empty")
+					default:
+						ctx.Count("event data: bytes")
+					}
+				}
+				if it.kind == "logadd" {
+					d := len(it.digest) - hsize(it.alg)
+					switch {
+					case hsize(it.alg) == 0:
+						ctx.Count("bare log entry: bank without a digest size")
+					case d == 0:
+						ctx.Count("bare log entry: digest of the bank's size")
+					case d == -1 || d == 1:
+						ctx.Count("bare log entry: digest one byte off the bank's size")
+					default:
+						ctx.Count("bare log entry: digest of another length")
+					}
+				}
+				if it.kind == "event" || it.kind == "extend" {
+					if it.src.tree != nil {
+						countTree(it.src.tree, 0)
+					} else {
+						ctx.Count("source kind: static (depth 0)")
+					}
+					switch {
+					case it.src.err && it.src.why != "":
+						ctx.Count("source failure: " + it.src.why)
+					case it.src.err:
+						ctx.Count("source failure: the source returned an error")
+					default:
+						raw, ok := rawOf(it.src.data)
+						if !ok {
+							ctx.Count("source failure: a reference cannot be read (panic)")
+						} else {
+							ctx.Count("measured bytes: " + bucket(len(raw.b), 1, 2, 55, 67, 1000))
+							ctx.Count(fmt.Sprintf("references per measurement: %s; converter %d", bucket(len(it.src.data.refs), 1, 2, 3, 6), it.src.data.conv))
+						}
+					}
+				}
+			}
+		}
+	}
+	for _, f := range r.flags {
+		for _, b := range f {
+			if b {
+				ctx.Count("action outcome: issue")
+			} else {
+				ctx.Count("action outcome: ok")
+			}
+		}
+	}
+	ctx.Count("boot number in its session: " + fmt.Sprint(len(r.earlier)+1))
+}
+
 // judge observes everything, runs the oracle and emits the case
 func judge(r *runResult) {
 	if r.bad != "" {
@@ -1789,6 +2128,7 @@ func judge(r *runResult) {
 	ht := &hashTable{}
 	items := r.items()
 	descr := r.descr()
+	countFlow(r)
 	idx := -1 // the case index is known only after Add: oracle failures are collected first
 	type fail struct {
 		known, what, site string
@@ -2152,6 +2492,51 @@ func judge(r *runResult) {
 			expect(false, fmt.Sprintf("command %s has a cause action that is not an action of the flow", e.Command.LogString()), "tpm.go:TPMExecute")
 		}
 	}
+	// --- the cause recorded beside every command: where its action stands (executed step, action of the
+	// step) -- found by the IDENTITY of the action object --, and, independently, the coordinates the
+	// TPM recorded: for a flow built here they must be those very indices (and name the flow), for a
+	// built-in flow the action at the recorded index of the executed step must be that action
+	type coord struct{ i, j int }
+	posOf := map[types.Action]coord{}
+	for i, st := range r.steps {
+		j := 0
+		for _, it := range st {
+			for _, a := range it.acts {
+				if !isPanicAction(a) {
+					posOf[a] = coord{i, j}
+				}
+				j++
+			}
+		}
+	}
+	var causeLits []string
+	lastPos := coord{-1, -1}
+	for k := range t.CommandLog {
+		e := &t.CommandLog[k]
+		pos, ok := posOf[e.CauseAction]
+		if !ok {
+			pos = coord{0, 0}
+		}
+		causeLits = append(causeLits, fmt.Sprintf("(%d%%nat, %d%%nat)", pos.i, pos.j))
+		if !ok {
+			continue
+		}
+		cc := e.CauseCoordinates
+		if r.flow != "" {
+			expect(cc.Flow.Name == r.flow && int(cc.StepIndex) == pos.i && int(cc.ActionIndex) == pos.j,
+				fmt.Sprintf("command %d (%s) was issued by action %d of step %d of flow %q but the command log records the cause coordinates (flow %q, step %d, action %d)",
+					k, e.Command.LogString(), pos.j, pos.i, r.flow, cc.Flow.Name, cc.StepIndex, cc.ActionIndex),
+				"pkg/bootflow/subsystems/trustchains/tpm/tpm.go:TPMExecute / pkg/bootflow/actions/tpmactions/log_info_provider.go")
+		} else {
+			acts := r.proc.Log[r.logIdx[pos.i]].Actions
+			expect(int(cc.ActionIndex) < len(acts) && acts[cc.ActionIndex] == e.CauseAction,
+				fmt.Sprintf("command %d (%s): the action at the recorded cause coordinates (action %d of the executed step) is not the recorded cause action", k, e.Command.LogString(), cc.ActionIndex),
+				"pkg/bootflow/subsystems/trustchains/tpm/tpm.go:TPMExecute")
+		}
+		expect(pos.i > lastPos.i || (pos.i == lastPos.i && pos.j >= lastPos.j),
+			fmt.Sprintf("command %d (%s) is recorded after a command of a later action", k, e.Command.LogString()), "tpm.go:TPMExecute")
+		lastPos = pos
+	}
 	// --- oracle (a): event log.  Which flows the clause speaks about is decided from the ITEMS of the
 	// flow alone (never from what the TPM recorded): the ledger lists, per PCR bank, the digests the
 	// items extend and the entries they log, whatever the order and grouping of the items.
@@ -2455,8 +2840,12 @@ func judge(r *runResult) {
 	for _, o := range p.convs {
 		pool = append(pool, fmt.Sprint(o.alg))
 	}
-	lit := fmt.Sprintf("(mkCase\n    %s\n    %d %s %s\n    %s\n    %s\n    %s\n    %s %s %d\n    %s\n    %s\n    %s\n    (%s, %s))",
-		gal.List(ht.items), startCode(r.reuse), gal.List(pool), gal.List(stepLits), pcrsLit(t.PCRValues), gal.List(cmdLits), gal.List(evLits),
+	imgLit := "None"
+	if !p.noImage {
+		imgLit = "(Some " + p.img.coq + ")"
+	}
+	lit := fmt.Sprintf("(mkCase\n    %s\n    %s %d %s %s\n    %s\n    %s\n    %s\n    %s\n    %s %s %d\n    %s\n    %s\n    %s\n    (%s, %s))",
+		gal.List(ht.items), imgLit, startCode(r.reuse), gal.List(pool), gal.List(stepLits), pcrsLit(t.PCRValues), gal.List(cmdLits), gal.List(causeLits), gal.List(evLits),
 		gal.List(measLits), gal.List(flagLits), loc, gal.List(replayLits), gal.List(tpmReplayLits),
 		pcrsLit(re.PCRValues), gal.Bool(apOK), pcrsLit(ap.PCRValues))
 	kind := r.kind
@@ -2490,7 +2879,7 @@ func judge(r *runResult) {
 func header() string {
 	var sb strings.Builder
 	sb.WriteString("From Coq Require Import Init.Byte.\n")
-	sb.WriteString("From CSS Require Import Lib.Base Lib.Cases Model.TPM Model.BootSim Model.BootSimCases.\n")
+	sb.WriteString("From CSS Require Import Lib.Base Lib.Cases Model.TPM Model.BootSim Model.BootSimSrc Model.BootSimLedger Model.BootSimCases.\n")
 	sb.WriteString("Definition img4k : list Z := Eval vm_compute in " + bl(img4kBytes) + ".\n")
 	sb.WriteString("Definition fw : list Z := Eval vm_compute in " + bl(firmware.FakeIntelFirmware) + ".")
 	return sb.String()
@@ -2552,17 +2941,21 @@ func main() {
 		// from it costs the Coq model ~10 ms: most platforms carry the 4 KiB image
 		useFW := ctx.Rng.Intn(10) < 3
 		hasRegs := useFW && ctx.Rng.Intn(10) < 8
-		p := newPlatform(useFW, hasRegs, ctx.Rng.Uint64())
+		// a State without a BIOS image (MemRanges and the GUID-selected sources then fail; references made
+		// by hand may still point into an image object)
+		noImage := !useFW && ctx.Rng.Intn(12) == 0
+		p := newPlatformImg(useFW, hasRegs, ctx.Rng.Uint64(), noImage)
 		// how often a new data object gets a converter object that other measurements hold already
 		p.share = pick(0, 25, 50, 50, 90)
 		return p
 	}
-	// a session: up to three boots on ONE *tpm.TPM object, recycled between the boots (every boot is a
+	// a session: up to five boots on ONE *tpm.TPM object, recycled between the boots (every boot is a
 	// case of its own; the earlier boots of the object are part of its description)
 	nextReuse := func() string {
 		return pick(reuseReset, reuseReset, reuseReset, reuseNoInitAlgs, reuseNoInitAlgs, reuseNoInit)
 	}
-	again := func(boot int) bool { return boot < 2 && ctx.Rng.Intn(100) < 30 }
+	// (up to five boots: the object and the State are recycled again and again)
+	again := func(boot int) bool { return boot < 4 && ctx.Rng.Intn(100) < 30 }
 	// first a few single boots whose measurements hold the same converter / data-source objects (the
 	// shortest flows of that kind: a failure there is the easiest to read), then the mix
 	nSharedFirst := ctx.Scale(12, 60)
